@@ -234,6 +234,7 @@ func (li *Listener) acceptLoop(ctx context.Context) {
 
 				return
 			}
+			err = nil
 			if n != 1 || buf[0] != 0 {
 				_ = qc.CloseWithError(500, "Read Data Error")
 				li.sendResult(ctx, nil, fmt.Errorf("stream failed to initialize"))
